@@ -868,13 +868,40 @@ def _infeasible(ctx, site):
                 x = x[2][0]
             if x not in cands and x[0] == "field" and _stable(T, x):
                 cands.append(x)
-    if not cands or len(cands) > 4:
+    # enum-typed places of the workspace tested by variant (`if let A(..) = self { return } let B(..) = self else { unreachable!() }`)
+    ecands = []
+    for bb in range(len(fn.blocks)):
+        si = T.switch_info(bb)
+        if si is None or si[0][0] != "discr":
+            continue
+        x = si[0][1]
+        labs = set(l for ls in si[1].values() for l in ls)
+        if labs <= {"Some", "None", "Ok", "Err", "Continue", "Break", "Ready", "Pending"} or not all(isinstance(l, str) for l in labs):
+            continue
+        root = x
+        while root[0] in ("field", "downcast"):
+            root = root[1]
+        if root[0] != "param" or not _stable(T, x):
+            continue
+        ty = None
+        if x[0] == "param":
+            ty = fn.locals[x[1]].s.replace("&mut ", "").replace("&", "").split("<")[0].strip()
+        ad = ctx.F.adts.get(ty) if ty else None
+        if ad is None:
+            continue
+        vs = [v["name"] for v in ad.get("variants", [])]
+        if len(vs) < 2 or not labs <= set(vs):
+            continue
+        if (x, tuple(vs)) not in ecands:
+            ecands.append((x, tuple(vs)))
+    if (not cands and not ecands) or len(cands) + len(ecands) > 4:
         return None
     atoms = [Atom("o%d" % i, "opt", (lambda t, x=x: t == x), ["Some", "None"]) for i, x in enumerate(cands)]
+    atoms += [Atom("e%d" % i, "enum", (lambda t, x=x: t == x), list(vs)) for i, (x, vs) in enumerate(ecands)]
     W = Walker(ctx, fn, atoms)
     names, tab = W.table({"site": [site.bb]})
     if tab and all("site" not in r for r in tab.values()):
-        return "infeasible arm: unreachable under every combination of Some/None of the Options tested on the way (%s)" % ", ".join(show(x) for x in cands)
+        return "infeasible arm: unreachable under every combination of Some/None of the Options / variants of the enums tested on the way (%s)" % ", ".join(show(x) for x in cands + [x for x, _ in ecands])
     return None
 
 
@@ -1140,7 +1167,8 @@ def match_table(ctx, rule, sites, table, panic_abort, prop_label, closure=None):
             return tuple(q)
         kind = q[2]
         if kind == "panic":
-            return (q[0], q[1], "panic", (q[4].split(" ", 1)[0] if q[4] else ""))
+            # assert!(c) <-> if !c { panic!(..) } <-> unreachable!(): one class of explicit panic within a function
+            return (q[0], q[1], "panic")
         if kind in ("unwrap", "index"):
             return (q[0], q[1], "access")
         return (q[0], q[1], kind, q[3], q[4])
